@@ -915,6 +915,22 @@ package zygo
 //@ C17 ensures not-a-symbol: r0 == KeyNotSymbol ==> !typeis(key, *SexpSymbol) && !typedRecord(h) && h.GoStructFactory == old(h.GoStructFactory)
 //@ C17 ensures keeps-definition: old(h.GoStructFactory != nil && h.GoStructFactory.UserStructDefn != nil) ==> h.GoStructFactory == old(h.GoStructFactory)
 
+// a value whose type cannot be told (a non-empty array with an untyped first element, a
+// closure, ...) is refused, it does not get past the comparison with the declared type
+//@ func (*SexpHash).TypeCheckField
+//@ C17 ensures untypable-value-is-refused: typedRecord(h) && declaredField(h, key) && obsKnown && obs == nil && !typeis(val, *SexpSentinel) && !(typeis(val, *SexpArray) && len(val.(*SexpArray).Val) == 0) ==> r0 != nil
+
+// the type of a non-empty array is that of its first element NOW: rest, slice, append, map and
+// keys hand the remembered type of their source (or an element type) to the array they build,
+// and aset replaces elements in place, so a remembered type may describe other contents
+//@ func (*SexpArray).Type
+//@ ghost asked := false @entry
+//@ ghost asked := true @after call Type[0]
+//@ ghost ety := ret0 @after call Type[0]
+//@ ghost sty := ret0 @after call GetOrCreateSliceType[0]
+//@ C17 ensures typed-by-its-current-first-element: len(r.Val) > 0 ==> asked && (ety != nil ==> r0 == sty) && (ety == nil ==> r0 == nil)
+//@ C17 ensures empty-is-the-empty-slice-unless-typed: len(r.Val) == 0 && old(r.Typ) != nil ==> r0 == old(r.Typ)
+
 // every successful set on a typed record stores a declared field; a rejected set changes nothing (C14 contract)
 //@ func (*SexpHash).HashSet
 //@ C17 assert checks-what-it-stores @before call TypeCheckField[0]: arg0 == hash && arg1 == nkey(entry(key)) && arg2 == entry(val)
